@@ -101,6 +101,20 @@ def benign_md():
                                            ', '.join('%s %d/%d' % (lab, sum(1 for k, v in fr.items() if k.endswith(suf) and v['status'] != 'silent'),
                                                                     sum(1 for k in fr if k.endswith(suf))) for lab, suf in (('small', '-b1'), ('medium', '-b2'), ('larger', '-b3')))))
         out.append('\nFirst-run alarms of round 2: ' + '; '.join('%s (%s)' % (k, v['alarms'][0][:60].replace('|', '/')) for k, v in sorted(fr.items()) if v['status'] != 'silent') + '.')
+    f3 = '/verif/benign/ROUND3_FIRST.json'
+    if os.path.exists(f3):
+        fr = json.load(open(f3))
+        n3 = len(fr)
+        a3 = sum(1 for v in fr.values() if v['status'] != 'silent')
+        half = lambda lo, hi: '%d/%d' % (sum(1 for k, v in fr.items() if lo <= k[:3] <= hi and v['status'] != 'silent'), sum(1 for k in fr if lo <= k[:3] <= hi))
+        out.append('\nRound 3 (`Cxx-c1` medium 10-30 lines, `-c2` larger 25-60 lines with extracted helpers / changed data representation / changed loop shape), FIRST run '
+                   'before any rule was adjusted to it: %d changes, %d silent, %d false alarms (%d%%). By size: %s. By property group: C01-C10 %s, C11-C20 %s '
+                   '(the rules of C11-C20 had been rewritten on the normal forms to a larger extent).' % (
+                       n3, n3 - a3, a3, round(100.0 * a3 / max(n3, 1)),
+                       ', '.join('%s %d/%d' % (lab, sum(1 for k, v in fr.items() if k.endswith(suf) and v['status'] != 'silent'),
+                                               sum(1 for k in fr if k.endswith(suf))) for lab, suf in (('medium', '-c1'), ('larger', '-c2'))),
+                       half('C01', 'C10'), half('C11', 'C20')))
+        out.append('\nFirst-run alarms of round 3: ' + '; '.join('%s (%s)' % (k, v['alarms'][0][:60].replace('|', '/')) for k, v in sorted(fr.items()) if v['status'] != 'silent') + '.')
     return '\n'.join(out)
 
 
